@@ -462,6 +462,9 @@ class Sym:
         s = str(z3.simplify(self.e))
         return f"Sym({s if len(s) < 120 else s[:117] + '...'})"
 
+    def __format__(self, spec):
+        return repr(self)
+
     __hash__ = object.__hash__
 
     @staticmethod
